@@ -112,6 +112,23 @@ class Sub:
         self.rule = rule
 
 
+_CURRENT = None
+
+
+def label(name, n=1):
+    """called from inside a prop(): count the running case under a class label"""
+    if _CURRENT is not None:
+        _CURRENT.classes[name] = _CURRENT.classes.get(name, 0) + n
+
+
+def discard(reason="discarded"):
+    """called from inside a prop(): the generated input was (legitimately) rejected by the code under
+    test, so the case exercised nothing; it is counted under its own class and never as non-trivial"""
+    if _CURRENT is not None:
+        _CURRENT._discarded = True
+        _CURRENT.classes["discard:" + reason] = _CURRENT.classes.get("discard:" + reason, 0) + 1
+
+
 class Stats:
     def __init__(self):
         self.evaluations = 0
@@ -163,11 +180,14 @@ class Ctx:
             st.sample(sub.name, case)
             for c in sub.classes(case):
                 st.classes[c] = st.classes.get(c, 0) + 1
-            nt = sub.nontrivial(case)
+            global _CURRENT
+            _CURRENT = st
+            st._discarded = False
+            fail = sub.prop(case)
+            nt = (not st._discarded) and sub.nontrivial(case)
             if nt:
                 st.nontrivial.add(case_hash(case) if nt is True else
                                   hashlib.sha256(repr(nt).encode()).hexdigest()[:16])
-            fail = sub.prop(case)
             if fail is None:
                 return None
             if fail == "inconclusive":
@@ -348,7 +368,7 @@ def run_property(mod, pid, tier, seed, nshards):
 
 
 def write_replay(pid, subname, case, fail):
-    d = os.path.join(VERIF, "replays", pid)
+    d = os.path.join(os.environ.get("VERIF_REPLAY_DIR", os.path.join(VERIF, "replays")), pid)
     os.makedirs(d, exist_ok=True)
     h = case_hash({"sub": subname, "case": case})
     path = os.path.join(d, "%s-%s.json" % (subname, h))
@@ -359,7 +379,7 @@ def write_replay(pid, subname, case, fail):
 
 
 def write_evidence(mod, pid, tier, seed, stats, rules, nviol, wall, nshards):
-    d = os.path.join(VERIF, "evidence")
+    d = os.environ.get("VERIF_EVIDENCE_DIR", os.path.join(VERIF, "evidence"))
     os.makedirs(d, exist_ok=True)
     ev = {
         "property_id": pid,
